@@ -11,6 +11,9 @@ import (
 
 func init() {
 	Registry["C05"] = checkC05
+	Controls["C05"] = map[string][2]string{
+		"R05.11": {"badStdJSONDecode", "goodK8sJSONDecode"},
+	}
 }
 
 func checkC05(r *Report, p *Program) {
@@ -21,6 +24,8 @@ func checkC05(r *Report, p *Program) {
 	r05_7(r, p)
 	lastAppliedIsHookAnswer(r, p, "R05.8")
 	r05_9(r, p)
+	jsonDecodingPreservesInts(r, p, "R05.11")
+	everyCandidateTried(r, p, "R05.12")
 	r05_10(r, p)
 	// what ApplyUpdate's helpers touch are private copies: the objects handed in (observed child from the cache, the merge result about to be sent) are not edited behind the caller's back — shared with C17
 	r17_1(r, p)
